@@ -388,6 +388,12 @@ class World(StackWorld):
     def kill(self, conn):
         self.ops_left -= 1
         conn["attempt"].killed = True
+        if self.run.ch.flag("orderly-fin", 0.4):
+            # the router side closes TCP in an orderly way (FIN, no GOODBYE, no WebSocket close frame): for the client
+            # a clean transport-level end (Twisted: ConnectionDone) of a session that never said goodbye
+            conn["s2c"].close_write()
+            self.run.fault("connection-fin")
+            return
         conn["c2s"].reset()
         conn["s2c"].reset()
         self.run.fault("connection-cut")
